@@ -873,7 +873,7 @@ Section BatchInvProofs.
   Qed.
 
   Lemma lprod_app a b : lprod (a ++ b) = lprod a * lprod b.
-  Proof. induction a as [|x a IH]; cbn [app lprod fold_right]; [ring|]. fold (lprod (a ++ b)) (lprod a). rewrite IH. ring. Qed.
+  Proof. induction a as [|x a IH]; unfold lprod in *; cbn [app fold_right]; [ring|rewrite IH; ring]. Qed.
 
   Lemma lprod_split zs i : (i < length zs)%nat ->
     lprod zs = lprod (firstn i zs) * nth i zs 0 * lprod (skipn (S i) zs).
@@ -885,7 +885,7 @@ Section BatchInvProofs.
       { rewrite <- (firstn_skipn i zs) at 1. rewrite app_nth2 by (rewrite firstn_length; lia).
         rewrite firstn_length, E. replace (i - Nat.min i (length zs))%nat with 0%nat by lia. reflexivity. }
       assert (Ht : skipn (S i) zs = t).
-      { replace (S i) with (1 + i)%nat by lia. rewrite <- skipn_skipn_nat_comm, E. reflexivity. }
+      { replace (S i) with (i + 1)%nat by lia. rewrite <- (skipn_skipn_nat 1 i), E. reflexivity. }
       rewrite Hn, Ht. cbn [lprod fold_right]. fold (lprod t). ring.
   Qed.
 
@@ -925,13 +925,102 @@ Section BatchInvProofs.
         replace (lprod (firstn (N - 1) zs) * nth (N - 1) zs 0 * 1 * F)
           with (nth (N - 1) zs 0 * (lprod (firstn (N - 1) zs) * F)) by ring.
         apply eqm_mul; [apply eqm_refl|]. apply mulm_eqm2; [|apply eqm_refl].
-        replace (N - 1)%nat with (S (N - 2)) at 2 by lia. apply f_list_nth. lia.
+        pose proof (f_list_nth zs (N - 2)%nat ltac:(lia)) as Hf.
+        replace (S (N - 2)) with (N - 1)%nat in Hf by lia. exact Hf.
       + apply Nat.eqb_neq in E1.
         replace (lprod (firstn i zs) * nth i zs 0 * lprod (skipn (S i) zs) * F)
           with (nth i zs 0 * (lprod (skipn (S i) zs) * lprod (firstn i zs) * F)) by ring.
         apply eqm_mul; [apply eqm_refl|]. apply mulm_eqm2; [|apply eqm_refl].
         apply mulm_eqm2.
         * replace (i + 1)%nat with (S i) by lia. apply g_list_nth. lia.
-        * replace i with (S (i - 1)) at 2 by lia. apply f_list_nth. lia.
+        * pose proof (f_list_nth zs (i - 1)%nat ltac:(lia)) as Hf.
+          replace (S (i - 1)) with i in Hf by lia. exact Hf.
   Qed.
 End BatchInvProofs.
+
+(* ---------------- the eager pre-computation equals the lazy one ---------------- *)
+Lemma p_gt_1 : 1 < sm2_p. Proof. reflexivity. Qed.
+
+Lemma mulm_eq_of_eqm m a b x : 0 < m -> 0 <= x < m -> eqm m (a * b) x -> mulm m a b = x.
+Proof. unfold mulm, eqm. intros Hm Hx H. rewrite H. apply Z.mod_small, Hx. Qed.
+
+(* back from Jacobian: x z^2 (z^-1)^2 = x and y z^3 (z^-1)^3 = y *)
+Lemma jac_back_x x z zi :
+  0 <= x < sm2_p -> (z mod sm2_p * zi) mod sm2_p = 1 mod sm2_p ->
+  mulm sm2_p (mulm sm2_p x (mulm sm2_p z z)) (mulm sm2_p zi zi) = x.
+Proof.
+  intros Hx Hz. pose proof p_pos as Hp.
+  apply mulm_eq_of_eqm; [exact Hp|exact Hx|].
+  assert (Hzz : eqm sm2_p (z * zi) 1).
+  { unfold eqm. rewrite Z.mul_mod, Z.mod_mod by lia. rewrite <- Z.mul_mod by lia.
+    rewrite <- Hz. rewrite Z.mul_mod_idemp_l by lia. reflexivity. }
+  eapply eqm_trans.
+  - apply eqm_mul; [exact Hp| |apply mulm_eqm; exact Hp].
+    apply mulm_eqm2; [exact Hp|apply eqm_refl|apply mulm_eqm; exact Hp].
+  - replace (x * (z * z) * (zi * zi)) with (x * ((z * zi) * (z * zi))) by ring.
+    replace x with (x * (1 * 1)) at 2 by ring.
+    apply eqm_mul; [exact Hp|apply eqm_refl|]. apply eqm_mul; assumption.
+Qed.
+
+Lemma jac_back_y y z zi :
+  0 <= y < sm2_p -> (z mod sm2_p * zi) mod sm2_p = 1 mod sm2_p ->
+  mulm sm2_p (mulm sm2_p (mulm sm2_p y (mulm sm2_p z (mulm sm2_p z z))) zi) (mulm sm2_p zi zi) = y.
+Proof.
+  intros Hy Hz. pose proof p_pos as Hp.
+  apply mulm_eq_of_eqm; [exact Hp|exact Hy|].
+  assert (Hzz : eqm sm2_p (z * zi) 1).
+  { unfold eqm. rewrite Z.mul_mod, Z.mod_mod by lia. rewrite <- Z.mul_mod by lia.
+    rewrite <- Hz. rewrite Z.mul_mod_idemp_l by lia. reflexivity. }
+  eapply eqm_trans.
+  - apply eqm_mul; [exact Hp| |apply mulm_eqm; exact Hp].
+    apply mulm_eqm2; [exact Hp| |apply eqm_refl].
+    apply mulm_eqm2; [exact Hp|apply eqm_refl|].
+    apply mulm_eqm2; [exact Hp|apply eqm_refl|apply mulm_eqm; exact Hp].
+  - replace (y * (z * (z * z)) * zi * (zi * zi)) with (y * ((z * zi) * ((z * zi) * (z * zi)))) by ring.
+    replace y with (y * (1 * (1 * 1))) at 2 by ring.
+    apply eqm_mul; [exact Hp|apply eqm_refl|]. repeat (apply eqm_mul; [exact Hp|assumption|]). assumption.
+Qed.
+
+Lemma draw_ks_length cnt en ks en' : draw_ks cnt en = Some (ks, en') -> length ks = cnt.
+Proof.
+  revert en ks en'. induction cnt as [|c IH]; intros en ks en' H; cbn [draw_ks] in H.
+  - apply Some_inj in H. injection H as <- _. reflexivity.
+  - destruct (rand_k en) as [[k e1]|]; [|discriminate].
+    destruct (draw_ks c e1) as [[ks1 e2]|] eqn:E; [|discriminate].
+    apply Some_inj in H. injection H as <- _. cbn [length]. f_equal. eapply IH, E.
+Qed.
+
+Lemma list_as_map_nth {A} (d : A) (l : list A) : l = map (fun i => nth i l d) (seq 0 (length l)).
+Proof.
+  induction l as [|x l IH]; [reflexivity|]. cbn [length seq map nth]. f_equal.
+  rewrite <- seq_shift, map_map. exact IH.
+Qed.
+
+(* sm2_fast_sign_pre_compute (eager, shared inversion) stores exactly (k_i, x([k_i]G) reduced):
+   for any Jacobian Z coordinates, provided the single inversion is correct *)
+Theorem fast_pre_compute_eq_partial zs en ks en' :
+  draw_ks 32 en = Some (ks, en') ->
+  (let Zs := map (fun i => jac_Z ZOps (sm2_mulG ZOps (nth i ks 0)) (nth i zs 1)) (seq 0 32) in
+   let T := nth 31 (f_list sm2_p Zs) 0 in (T * inv_p ZOps T) mod sm2_p = 1 mod sm2_p) ->
+  fast_pre_compute ZOps zs en = Some (map (pre_entry ZOps) ks, en').
+Proof.
+  intros Hd Hinv. pose proof (draw_ks_length _ _ _ _ Hd) as Hl. cbv zeta in Hinv.
+  unfold fast_pre_compute. rewrite Hd. f_equal. f_equal.
+  rewrite (list_as_map_nth 0 ks) at 3. rewrite Hl, map_map.
+  apply map_ext_in. intros i Hi. apply in_seq in Hi.
+  set (Zs := map (fun i => jac_Z ZOps (sm2_mulG ZOps (nth i ks 0)) (nth i zs 1)) (seq 0 32)) in *.
+  assert (HZl : length Zs = 32%nat) by (unfold Zs; rewrite map_length, seq_length; reflexivity).
+  pose proof (batch_inv_correct sm2_p p_pos (inv_p ZOps) Zs ltac:(lia)) as Hb.
+  rewrite HZl in Hb. specialize (Hb Hinv i ltac:(lia)).
+  assert (HZi : nth i Zs 0 = jac_Z ZOps (sm2_mulG ZOps (nth i ks 0)) (nth i zs 1)).
+  { unfold Zs. rewrite nth_indep with (d' := jac_Z ZOps (sm2_mulG ZOps (nth 0 ks 0)) (nth 0 zs 1))
+      by (rewrite map_length, seq_length; lia).
+    rewrite map_nth, seq_nth by lia. reflexivity. }
+  rewrite HZi in Hb.
+  unfold fast_pre_slot, pre_entry, x1_of. f_equal. f_equal.
+  pose proof (mulG_ok (nth i ks 0)) as Hok.
+  destruct (sm2_mulG ZOps (nth i ks 0)) as [[x y]|].
+  - cbn [jac_X jac_Z get_x ntoZ ZOps] in *. unfold pt_ok, pt_okp in Hok.
+    apply jac_back_x; [lia|exact Hb].
+  - cbn [jac_Z] in Hb. rewrite Z.mul_0_l, Z.mod_0_l, Z.mod_1_l in Hb by (pose proof p_gt_1; lia). discriminate.
+Qed.
